@@ -1,10 +1,28 @@
 package simsync
 
-import "sync"
+import (
+	"sync"
+	"sync/atomic"
+)
+
+var held atomic.Int64
+
+// Held returns how many simsync locks (read or write) are held right now,
+// by anyone. A harness that wants to park a goroutine at a scheduling point
+// does so only when this is zero, so that nobody can pile up behind it.
+func Held() int { return int(held.Load()) }
 
 // Yield is called (when set) before every lock operation of code compiled
 // against simsync; the cooperative scheduler of C15 installs it.
 var Yield func(op string)
+
+// Blocking selects what a lock operation does after its scheduling point when a
+// Yield hook is installed: false (cooperative task scheduler, C15: exactly one
+// task runs, so a task that finds the mutex held must keep yielding) or true
+// (real goroutines inside a synctest bubble, C16: the hook may hand the
+// processor to another goroutine, then the real mutex is taken and blocks as
+// usual).
+var Blocking bool
 
 // Mutex mirrors sync.Mutex with a scheduling point before Lock and after Unlock.
 type Mutex struct {
@@ -17,19 +35,33 @@ type Mutex struct {
 func (m *Mutex) Lock() {
 	if y := Yield; y != nil {
 		y("lock")
+		if Blocking {
+			m.real.Lock()
+			held.Add(1)
+			return
+		}
 		for !m.real.TryLock() {
 			y("blocked")
 		}
+		held.Add(1)
 		return
 	}
 	m.real.Lock()
+	held.Add(1)
 }
 
 // TryLock mirrors (*sync.Mutex).TryLock.
-func (m *Mutex) TryLock() bool { return m.real.TryLock() }
+func (m *Mutex) TryLock() bool {
+	if m.real.TryLock() {
+		held.Add(1)
+		return true
+	}
+	return false
+}
 
 // Unlock unlocks m.
 func (m *Mutex) Unlock() {
+	held.Add(-1)
 	m.real.Unlock()
 	if y := Yield; y != nil {
 		y("unlock")
@@ -44,14 +76,22 @@ type RWMutex struct {
 func (m *RWMutex) Lock() {
 	if y := Yield; y != nil {
 		y("lock")
+		if Blocking {
+			m.real.Lock()
+			held.Add(1)
+			return
+		}
 		for !m.real.TryLock() {
 			y("blocked")
 		}
+		held.Add(1)
 		return
 	}
 	m.real.Lock()
+	held.Add(1)
 }
 func (m *RWMutex) Unlock() {
+	held.Add(-1)
 	m.real.Unlock()
 	if y := Yield; y != nil {
 		y("unlock")
@@ -60,19 +100,44 @@ func (m *RWMutex) Unlock() {
 func (m *RWMutex) RLock() {
 	if y := Yield; y != nil {
 		y("rlock")
+		if Blocking {
+			m.real.RLock()
+			held.Add(1)
+			return
+		}
 		for !m.real.TryRLock() {
 			y("blocked")
 		}
+		held.Add(1)
 		return
 	}
 	m.real.RLock()
+	held.Add(1)
 }
 func (m *RWMutex) RUnlock() {
+	held.Add(-1)
 	m.real.RUnlock()
 	if y := Yield; y != nil {
 		y("runlock")
 	}
 }
-func (m *RWMutex) TryLock() bool   { return m.real.TryLock() }
-func (m *RWMutex) TryRLock() bool  { return m.real.TryRLock() }
-func (m *RWMutex) RLocker() Locker { return m.real.RLocker() }
+func (m *RWMutex) TryLock() bool {
+	if m.real.TryLock() {
+		held.Add(1)
+		return true
+	}
+	return false
+}
+func (m *RWMutex) TryRLock() bool {
+	if m.real.TryRLock() {
+		held.Add(1)
+		return true
+	}
+	return false
+}
+func (m *RWMutex) RLocker() Locker { return rlocker{m} }
+
+type rlocker struct{ m *RWMutex }
+
+func (r rlocker) Lock()   { r.m.RLock() }
+func (r rlocker) Unlock() { r.m.RUnlock() }
